@@ -50,7 +50,11 @@ impl WalRecuperator {
             for lsn in analysis.try_iter_lsn(redo_transaction).ok_or(IoError::new(
                 ErrorKind::NotSeekable,
                 "transaction not found in th write ahead analysis",
-            ))? {
+            ))?
+            // Undo walks a transaction's records backwards: when a row was changed twice, the
+            // older before-image must be restored last.
+            .rev()
+            {
                 if let Some(delete_operation) = analysis.delete_ops.get(&lsn) {
                     self.undo_delete(delete_operation)?;
                 }
